@@ -78,7 +78,7 @@ ERelease(c) == /\ EnvCan /\ c \in phys %(release_guard)s
 """
 
 
-def instance(name, desc, params, D=1, qmax=1, maclen=3, free_replay=False, saves=1, held=2):
+def instance(name, desc, params, D=1, qmax=1, maclen=3, free_replay=False, saves=1, held=2, drift_limit=150):
     """The exhaustive instance: every physically consistent typing history over the keys within the bounds: at most
     `saves` macros saved, at most `maclen` stored events in a recording, gaps 0..D ticks between recorded events,
     at most qmax unprocessed events.  States in which a macro was saved with two or more synthesized releases are
@@ -102,7 +102,7 @@ def instance(name, desc, params, D=1, qmax=1, maclen=3, free_replay=False, saves
             "monitor": {"module": "P_C19", "params": params},
             "constraint": "DynBound\nACTION_CONSTRAINT SyncDone", "extra_defs": bound + "\n" + probe, "extra_guard": "/\\ FALSE",
             "extra_actions": env, "extra_next": "\\/ (\\E c \\in EnvKeys : EPress(c) \\/ ERelease(c))",
-            "invariants": []}
+            "invariants": [], "drift_limit": drift_limit}
 
 
 def family(tier):
@@ -391,7 +391,8 @@ def run(tier, seed):
     def one(f):
         name, (desc, params), kw = f
         # one directory per instance: the instances of the quick tier run concurrently
-        return name, params, mc.check_instance(instance(name, desc, params, **kw), workdir("c19/" + name),
+        return name, params, mc.check_instance(instance(name, desc, params, drift_limit=150 if tier == "quick" else 1500, **kw),
+                                               workdir("c19/" + name),
                                                workers=4 if tier == "quick" else 8, timeout=3000)
     build_harness()
     cfgdesc.keytable()
@@ -435,6 +436,9 @@ def run(tier, seed):
         jobs = shard_local_index(jobs)
         errs, trace = record_and_validate(res, "P_C19", jobs, wd, "c19_" + label)
         for e in errs:
+            if len(res.violations) >= 25:       # enough replay files; the rest is only counted
+                res.extra["further_rejections_not_written"] = res.extra.get("further_rejections_not_written", 0) + 1
+                continue
             j, sc = script_of(jobs, e["job"], 0)
             flow.classify(res, pid, e["err"], e["err"] + " " + panic_site(e["err"]) + " cfg=" + j["cfg"],
                           {"property": pid, "cfg": j["cfg"], "params": j["params"], "script": sc, "err": e["err"],
